@@ -199,7 +199,55 @@ func (c *Conn) Write(p []byte) (int, error) {
 		w.AfterRemoteGone = true
 	}
 	c.writes = append(c.writes, w)
+	c.cond.Broadcast() // wake a reactive remote waiting in WaitWrites
 	return len(p), nil
+}
+
+// WaitWrites blocks (durably) until corebgp has made at least n successful
+// writes on the connection, or closed its end, or limit of virtual time has
+// passed. It returns the number of successful writes so far and whether the
+// local end is closed. It lets a scripted remote react to corebgp at machine
+// speed, without the test's root goroutine stepping in.
+func (c *Conn) WaitWrites(n int, limit time.Duration) (int, bool) {
+	deadline := time.Now().Add(limit)
+	t := time.AfterFunc(limit, func() {
+		c.mu.Lock()
+		c.cond.Broadcast()
+		c.mu.Unlock()
+	})
+	defer t.Stop()
+	c.mu.Lock()
+	defer c.mu.Unlock()
+	for {
+		k := 0
+		for _, w := range c.writes {
+			if !w.Failed {
+				k++
+			}
+		}
+		if k >= n || c.localClosed || !time.Now().Before(deadline) {
+			return k, c.localClosed
+		}
+		c.cond.Wait()
+	}
+}
+
+// WaitLocalClosed blocks (durably) until corebgp closed its end or limit of
+// virtual time has passed.
+func (c *Conn) WaitLocalClosed(limit time.Duration) bool {
+	deadline := time.Now().Add(limit)
+	t := time.AfterFunc(limit, func() {
+		c.mu.Lock()
+		c.cond.Broadcast()
+		c.mu.Unlock()
+	})
+	defer t.Stop()
+	c.mu.Lock()
+	defer c.mu.Unlock()
+	for !c.localClosed && time.Now().Before(deadline) {
+		c.cond.Wait()
+	}
+	return c.localClosed
 }
 
 // Close implements net.Conn (orderly close of the local end).
